@@ -56,6 +56,11 @@ func TestC07(t *testing.T) {
 		Op{Kind: "regnode", ID: "m", NT: M}, Op{Kind: "regnode", ID: "k", NT: K},
 		Op{Kind: "regpipe", Type: "t1", Pid: "p0", IDs: []string{"f", "m", "k"}},
 		Op{Kind: "rmnode", ID: "f"}, Op{Kind: "rmpipe", Type: "t0", Pid: "p0"}, Op{Kind: "rmpipenodes", Type: "t0", Pid: "p0"})
+	// the same alphabet plus registrations that offer the node object already registered under the id
+	alphaX := append([]Op{}, alpha...)
+	for _, p := range []string{"", "AllowOverwrite", "DenyOverwrite"} {
+		alphaX = append(alphaX, Op{Kind: "regnode", ID: "f", NT: F, Policy: p, SameObj: true})
+	}
 	prologue := []Op{{Kind: "regnode", ID: "f", NT: F}, {Kind: "regnode", ID: "m", NT: M}, {Kind: "regnode", ID: "k", NT: K}}
 	types := []string{"t0", "t1"}
 	depth := run.Pick(4, 5)
@@ -86,13 +91,43 @@ func TestC07(t *testing.T) {
 	for d := 1; d <= depth; d++ {
 		rec(nil, d)
 	}
+	// exhaustive to depth 3 over the extended alphabet, histories that use a same-object registration only
+	var recX func(h []Op, d int, uses bool)
+	recX = func(h []Op, d int, uses bool) {
+		if run.Stop() {
+			return
+		}
+		if len(h) == d {
+			if !uses {
+				return
+			}
+			mine := idx%run.NBatch == run.Batch
+			idx++
+			if !mine {
+				return
+			}
+			for _, pro := range [][]Op{prologue, nil} {
+				full := append(append([]Op{}, pro...), h...)
+				run.Progress("C07 exhaustive (same object) %v", opsString(full))
+				sig := checkHistoryC07(run, full, types)
+				run.Eval(fmt.Sprintf("x|%s|%v", sig, opsString(full)))
+			}
+			return
+		}
+		for _, op := range alphaX {
+			recX(append(h, op), d, uses || op.SameObj)
+		}
+	}
+	for d := 1; d <= 3; d++ {
+		recX(nil, d, false)
+	}
 	// sampled longer histories
 	ns := run.N(10000, 1000000)
 	for i := 0; i < ns && !run.Stop(); i++ {
 		h := append([]Op{}, prologue...)
 		n := r.Range(depth+1, 10)
 		for j := 0; j < n; j++ {
-			h = append(h, rt.Pick(r, alpha))
+			h = append(h, rt.Pick(r, alphaX))
 		}
 		run.Progress("C07 sampled %v", opsString(h))
 		sig := checkHistoryC07(run, h, types)
